@@ -113,6 +113,9 @@ class _Resolver(ast.NodeTransformer):
 
     def visit_Name(self, node):
         if isinstance(node.ctx, ast.Load) and node.id not in self.shadow and node.id not in self.ev.comp_env:
+            if node.id in self.ev.root.raw_dead and self.ev.fi is self.ev.root.fi:
+                raise AnalysisError('%s: parameter %s is read after its default was filled in under another name'
+                                    % (self.ev.fi.qualname, node.id))
             v = self.ev.env.get(node.id)
             if isinstance(v, Ex):
                 return ast.copy_location(copy.deepcopy(v.node), node)
@@ -185,6 +188,7 @@ class TemplateEval(object):
         self._done = False
         self._stop_at = None
         self._loop_guard = None     # during the symbolic iteration of a depth loop: names the body binds / has bound so far
+        self.raw_dead = set()       # parameters whose defaulted value lives under another local (see _if): not to be read bare
         self._loop_rec = None
 
     # -- compat API -----------------------------------------------------------------------------------------
@@ -292,7 +296,9 @@ class TemplateEval(object):
         raise AnalysisError('%s: statement outside the modelled subset of code generators: %s' % (self.fi.qualname, norm(st)[:60]))
 
     def _depth_loop(self, st):
-        """``for d in range(len(funcs)): ...`` in place of the recursion over ``funcs[1:]``.
+        """``for d in range(len(funcs)): ...`` / ``for d, func in enumerate(funcs): ...`` in place of the recursion over
+        ``funcs[1:]`` (``func`` is ``funcs[d]``; a local ``L = level`` that the body advances by one as its last use of it is
+        ``level + d``).
 
         The loop is executed for one *symbolic* iteration in the frame of the equivalent recursive activation: inside
         the body ``<list param>[d]`` is that activation's ``<list param>[0]`` and ``<level param> + d`` its
@@ -303,16 +309,24 @@ class TemplateEval(object):
         text ``defs(0) + <the same for funcs[1:]> + tails(0)`` (see _nest)."""
         def fail(why):
             return AnalysisError('%s: loop in a code generator (%s) -- %s' % (self.fi.qualname, norm(st)[:50], why))
-        if st.orelse or not isinstance(st.target, ast.Name):
+        if st.orelse:
             raise fail('symbolic template evaluation follows straight-line builders and depth loops only')
-        d = st.target.id
+        # header: ``for d in range(len(P))`` or ``for d, x in enumerate(P)`` (x is P[d]) over a list parameter P
         it = st.iter
-        ok = isinstance(it, ast.Call) and isinstance(it.func, ast.Name) and it.func.id == 'range' and len(it.args) == 1 and not it.keywords
-        ln = it.args[0] if ok else None
-        ok = ok and isinstance(ln, ast.Call) and isinstance(ln.func, ast.Name) and ln.func.id == 'len' and len(ln.args) == 1
-        seqp = norm(self.resolve(ln.args[0])) if ok else None
-        if not ok or seqp not in self.params:
-            raise fail('only "for d in range(len(<list parameter>))" can be read as the recursion over its tail')
+        d = elem_var = seq_expr = None
+        if isinstance(st.target, ast.Name):
+            ok = isinstance(it, ast.Call) and isinstance(it.func, ast.Name) and it.func.id == 'range' and len(it.args) == 1 and not it.keywords
+            ln = it.args[0] if ok else None
+            if ok and isinstance(ln, ast.Call) and isinstance(ln.func, ast.Name) and ln.func.id == 'len' and len(ln.args) == 1 and not ln.keywords:
+                d, seq_expr = st.target.id, ln.args[0]
+        elif isinstance(st.target, (ast.Tuple, ast.List)) and len(st.target.elts) == 2 and all(isinstance(x, ast.Name) for x in st.target.elts) and \
+                isinstance(it, ast.Call) and isinstance(it.func, ast.Name) and it.func.id == 'enumerate' and len(it.args) == 1 and not it.keywords \
+                and st.target.elts[0].id != st.target.elts[1].id:
+            d, elem_var, seq_expr = st.target.elts[0].id, st.target.elts[1].id, it.args[0]
+        seqp = norm(self.resolve(seq_expr)) if seq_expr is not None else None
+        if d is None or seqp not in self.params or 'range' in self.env or 'len' in self.env or 'enumerate' in self.env:
+            raise fail('only "for d in range(len(<list parameter>))" / "for d, x in enumerate(<list parameter>)" can be read as the '
+                       'recursion over its tail')
         for s_ in st.body:
             for n in ast.walk(s_):
                 if isinstance(n, (ast.Break, ast.Continue, ast.Return, ast.For, ast.While, ast.Try, ast.With, ast.Yield, ast.YieldFrom,
@@ -324,8 +338,44 @@ class TemplateEval(object):
                 for ch in ast.iter_child_nodes(p_):
                     par[ch] = p_
         indexed, shifted = set(), set()
+        if elem_var is not None:
+            indexed.add(seqp)
         names = [n for s_ in st.body for n in ast.walk(s_) if isinstance(n, ast.Name)]
+        # induction locals: ``L = <level parameter>`` before the loop, ``L += 1`` once per iteration (a top-level statement of
+        # the body, nothing reads L behind it): inside the body L is ``<level parameter> + d``, i.e. the level of the
+        # equivalent recursive activation
+        induction, inc_stmts = {}, []
+        for i_, s_ in enumerate(st.body):
+            L = None
+            if isinstance(s_, ast.AugAssign) and isinstance(s_.target, ast.Name) and isinstance(s_.op, ast.Add) and \
+                    isinstance(s_.value, ast.Constant) and s_.value.value == 1 and type(s_.value.value) is int:
+                L = s_.target.id
+            elif isinstance(s_, ast.Assign) and len(s_.targets) == 1 and isinstance(s_.targets[0], ast.Name) and \
+                    isinstance(s_.value, ast.BinOp) and isinstance(s_.value.op, ast.Add):
+                a_, b_ = s_.value.left, s_.value.right
+                for x_, y_ in ((a_, b_), (b_, a_)):
+                    if isinstance(x_, ast.Name) and x_.id == s_.targets[0].id and isinstance(y_, ast.Constant) and y_.value == 1 and \
+                            type(y_.value) is int:
+                        L = s_.targets[0].id
+            if L is None:
+                continue
+            cur = self.env.get(L)
+            if not (isinstance(cur, Ex) and isinstance(cur.node, ast.Name) and cur.node.id in self.params):
+                continue
+            stores = [n for n in names if n.id == L and isinstance(n.ctx, (ast.Store, ast.Del))]
+            later = [n for s2 in st.body[i_ + 1:] for n in ast.walk(s2) if isinstance(n, ast.Name) and n.id == L]
+            if len(stores) != 1 or later or L in induction or L == d or L == elem_var:
+                raise fail('the counter %s is not advanced exactly once, at the end of each iteration' % L)
+            induction[L] = cur.node.id
+            inc_stmts.append(s_)
+        for L, p_ in induction.items():
+            if p_ in indexed or list(induction.values()).count(p_) != 1:
+                raise fail('parameter %s is counted in more than one way' % p_)
+            shifted.add(p_)
+        inc_nodes = set(id(n) for s_ in inc_stmts for n in ast.walk(s_))
         for n in names:
+            if elem_var is not None and n.id == elem_var and not isinstance(n.ctx, ast.Load):
+                raise fail('the loop element is re-bound in the body')
             if n.id != d:
                 continue
             p_ = par.get(n)
@@ -336,12 +386,16 @@ class TemplateEval(object):
                 indexed.add(p_.value.id)
             elif isinstance(p_, ast.BinOp) and isinstance(p_.op, ast.Add) and \
                     isinstance(p_.right if p_.left is n else p_.left, ast.Name) and (p_.right if p_.left is n else p_.left).id in self.params:
+                if (p_.right if p_.left is n else p_.left).id in induction.values():
+                    raise fail('parameter %s is counted in more than one way' % (p_.right if p_.left is n else p_.left).id)
                 shifted.add((p_.right if p_.left is n else p_.left).id)
             else:
                 raise fail('the loop index is used other than as <list parameter>[d] or <level parameter> + d')
         if seqp not in indexed or (indexed & shifted):
             raise fail('the loop does not index the list it is bounded by')
         for n in names:
+            if n.id in induction or id(n) in inc_nodes:
+                continue          # reads of a counter stand for <level parameter> + d (see above)
             if n.id in indexed or n.id in shifted:
                 p_ = par.get(n)
                 good = (n.id in indexed and isinstance(p_, ast.Subscript) and p_.value is n and isinstance(p_.slice, ast.Name) and p_.slice.id == d) or \
@@ -354,17 +408,23 @@ class TemplateEval(object):
             if not (isinstance(v, Ex) and isinstance(v.node, ast.Name) and v.node.id == p_):
                 raise fail('parameter %s is re-bound before the loop' % p_)
         lists = dict((k, v) for k, v in self.env.items() if isinstance(v, SList) and v.kind == 'list')
-        stored = set(n.id for n in names if isinstance(n.ctx, (ast.Store, ast.Del)))
+        stored = set(n.id for n in names if isinstance(n.ctx, (ast.Store, ast.Del))) - set(induction)
         if stored & set(self.params):
             raise fail('the body re-binds a parameter')
         before = dict((k, len(v.items)) for k, v in lists.items())
         self._loop_guard = {'stored': stored, 'assigned': set()}
         self.env[d] = Ex(ast.Constant(value=0))
+        if elem_var is not None:
+            self.env[elem_var] = Ex(ast.Subscript(value=ast.Name(id=seqp, ctx=ast.Load()), slice=ast.Constant(value=0), ctx=ast.Load()))
         try:
-            self.exec_block(st.body)
+            self.exec_block([s_ for s_ in st.body if not any(s_ is x for x in inc_stmts)])
         finally:
             self._loop_guard = None
         self.env[d] = Ex(ast.Name(id='<last %s>' % d, ctx=ast.Load()))
+        if elem_var is not None:
+            self.env[elem_var] = Ex(ast.Name(id='<last %s>' % elem_var, ctx=ast.Load()))
+        for L in induction:
+            self.env[L] = Ex(ast.Name(id='<%s after the loop>' % L, ctx=ast.Load()))
         for k_ in stored:
             self.env[k_] = Ex(ast.Name(id='<%s of the last iteration>' % k_, ctx=ast.Load()))
         for k, v in lists.items():
@@ -414,6 +474,14 @@ class TemplateEval(object):
             if n1 == name and n2 == name and isinstance(v2, ast.Name) and v2.id == name and isinstance(self.env.get(name), Ex) and \
                     self.env[name].text == name:
                 self.inits[name] = (st, v1)
+                return
+            # ``q = p`` .. ``if p is None: q = <default>``: the local q is p with its default filled in.  q keeps standing for
+            # p (as in the spelling above, where p itself is re-bound); the bare p -- possibly None -- may not be used any more
+            if n1 is not None and n1 != name and not other and n1 not in self.params and isinstance(self.env.get(n1), Ex) and \
+                    isinstance(self.env[n1].node, ast.Name) and self.env[n1].node.id == name and isinstance(self.env.get(name), Ex) and \
+                    self.env[name].text == name and name in self.params and name not in self.inits:
+                self.inits[name] = (st, v1)
+                self.root.raw_dead.add(name)
                 return
         if self._terminates(st.body) and not self._contains_stop(st):
             # guard clause: the rest of the function is the other path
@@ -584,6 +652,9 @@ class TemplateEval(object):
         if isinstance(e, ast.Name):
             if e.id in self.comp_env:
                 return self.comp_env[e.id]
+            if e.id in self.root.raw_dead and self.fi is self.root.fi:
+                raise AnalysisError('%s: parameter %s is read after its default was filled in under another name'
+                                    % (self.fi.qualname, e.id))
             g = self.root._loop_guard
             if g is not None and e.id in g['stored'] and e.id not in g['assigned']:
                 raise AnalysisError('%s: loop in a code generator: local %s is carried from one iteration to the next'
